@@ -22,6 +22,14 @@ def _run(pid, prop, tier, seed, coop_cases, free_cases, rule, assumptions):
                               timeout=300 if tier == "quick" else 7200, work=work, env=vlib.SAN_ENV_EXPLORE, tag="t")
     c2, d2, s2, st2 = vlib.collect_runs(v, res2, judge_report=_tsan_judge)
     stats["tsan_free_running"] = dict(rounds=int(c2.get("evaluations", 0)), monitor_counts=c2.get("counts", {}), **st2)
+    if pid == "C13":
+        # server level: the transport's drain loop over the same queue type
+        wbin = vlib.build_harness("writes", "plain")
+        res3 = vlib.run_resumable(wbin, ["--prop", "c13s", "--seed", str(seed), "--cases", str(6 if tier == "quick" else 150)], 4,
+                                  timeout=300 if tier == "quick" else 7200, work=work, tag="s")
+        c3, d3, s3, st3 = vlib.collect_runs(v, res3)
+        distinct |= d3
+        stats["server_level_drain_loop"] = dict(scenarios=int(c3.get("evaluations", 0)), **st3)
     v.coverage.update(evaluations=int(counters.get("evaluations", 0)) + int(c2.get("evaluations", 0)), distinct_nontrivial=len(distinct),
                       distinct_interleavings=len(distinct), coop_schedules=int(counters.get("evaluations", 0)),
                       rule=rule, samples=samples[:6], monitor_counts=counters.get("counts", {}), **stats)
